@@ -233,7 +233,7 @@ pub struct CallInfo {
     pub cancelled: bool,
     /// blocking client: the caller thread stays alive and takes further jobs, so a follow-up call can be
     /// issued from the SAME OS thread (per-thread state in the client must not leak between calls)
-    pub worker: Option<mpsc::Sender<(usize, Value, Option<Duration>)>>,
+    pub worker: Option<mpsc::Sender<(usize, String, Value, Option<Duration>)>>,
     /// `AsyncClient::forward_message*` call: the CALLER-CHOSEN request id it was issued with
     pub fwd_id: Option<u64>,
     /// forward launched droppable: firing this makes the task drop the forward future (the task lives on)
@@ -258,7 +258,13 @@ impl Calls {
         Calls { tx, rx, v: vec![] }
     }
     pub fn launch(&mut self, env: &Env, cli: &Cli, token: u64, pad: usize, timeout: Option<Duration>) -> usize {
+        self.launch_at(env, cli, PATH, token, pad, timeout)
+    }
+    /// `launch` with a caller-chosen route (the fake servers echo the request's query in the response, so
+    /// the route is what a late / discarded response carries).
+    pub fn launch_at(&mut self, env: &Env, cli: &Cli, path: &str, token: u64, pad: usize, timeout: Option<Duration>) -> usize {
         let idx = self.v.len();
+        let path = path.to_string();
         let tx = self.tx.clone();
         let body = body_for(token, pad);
         let conv = |r: Result<Value, repe::RepeError>| match r {
@@ -269,14 +275,14 @@ impl Calls {
         let mut worker = None;
         match cli.clone() {
             Cli::Sync(c) => {
-                let (jtx, jrx) = mpsc::channel::<(usize, Value, Option<Duration>)>();
-                let _ = jtx.send((idx, body.clone(), timeout));
+                let (jtx, jrx) = mpsc::channel::<(usize, String, Value, Option<Duration>)>();
+                let _ = jtx.send((idx, path, body.clone(), timeout));
                 worker = Some(jtx);
                 let r = std::thread::Builder::new().stack_size(256 << 10).spawn(move || {
-                    while let Ok((idx, body, timeout)) = jrx.recv() {
+                    while let Ok((idx, path, body, timeout)) = jrx.recv() {
                         let r = catching(|| match timeout {
-                            None => c.call_json(PATH, &body),
-                            Some(d) => c.call_json_with_timeout(PATH, &body, d),
+                            None => c.call_json(&path, &body),
+                            Some(d) => c.call_json_with_timeout(&path, &body, d),
                         });
                         let res = match r {
                             Ok(r) => conv(r),
@@ -292,8 +298,8 @@ impl Calls {
             Cli::Async(c) => {
                 handle = Some(env.rt_cli.spawn(async move {
                     let r = match timeout {
-                        None => c.call_json(PATH, &body).await,
-                        Some(d) => c.call_json_with_timeout(PATH, &body, d).await,
+                        None => c.call_json(&path, &body).await,
+                        Some(d) => c.call_json_with_timeout(&path, &body, d).await,
                     };
                     let _ = tx.send(Done { idx, res: conv(r) });
                 }));
@@ -301,8 +307,8 @@ impl Calls {
             Cli::Ws(c) => {
                 handle = Some(env.rt_cli.spawn(async move {
                     let r = match timeout {
-                        None => c.call_json(PATH, &body).await,
-                        Some(d) => c.call_json_with_timeout(PATH, &body, d).await,
+                        None => c.call_json(&path, &body).await,
+                        Some(d) => c.call_json_with_timeout(&path, &body, d).await,
                     };
                     let _ = tx.send(Done { idx, res: conv(r) });
                 }));
@@ -314,14 +320,17 @@ impl Calls {
     /// Issue a call from the same OS thread that made call `from` (blocking client; that call must have
     /// returned). Other clients: an ordinary launch.
     pub fn launch_same_thread(&mut self, env: &Env, cli: &Cli, from: usize, token: u64, pad: usize, timeout: Option<Duration>) -> usize {
+        self.launch_same_thread_at(env, cli, from, PATH, token, pad, timeout)
+    }
+    pub fn launch_same_thread_at(&mut self, env: &Env, cli: &Cli, from: usize, path: &str, token: u64, pad: usize, timeout: Option<Duration>) -> usize {
         if let Some(w) = self.v.get(from).and_then(|c| c.worker.clone()) {
             let idx = self.v.len();
-            if w.send((idx, body_for(token, pad), timeout)).is_ok() {
+            if w.send((idx, path.to_string(), body_for(token, pad), timeout)).is_ok() {
                 self.v.push(CallInfo { token, timeout, handle: None, res: None, cancelled: false, worker: Some(w), fwd_id: None, drop_tx: None });
                 return idx;
             }
         }
-        self.launch(env, cli, token, pad, timeout)
+        self.launch_at(env, cli, path, token, pad, timeout)
     }
     /// Blocking client only: a caller thread that is already running and spins until `go` is set,
     /// then waits `delay_us` more and calls. Used to land registrations inside a window of a few
